@@ -12,7 +12,7 @@ RULE = ('filters are built by placing payloads - calls/attribute reads/comprehen
         'builtins, hszinc.grid_filter and hszinc.datatypes, __import__/open/exec/eval/compile/getattr/globals expressions, '
         'dunder names, names of builtins, quote/backquote/backslash/newline/#/;/) break-out fragments, format directives - '
         'into every literal and identifier slot of the filter grammar (string, URI, Ref name, Ref display, XStr type name, '
-        'XStr payload, unit, zone name, tag name, path element before/after ->, list element, dict tag, dict value, Bin payload), '
+        'XStr payload, unit, zone name (incl. names only pytz knows), tag name, path element before/after ->, list element, dict tag, dict value, Bin payload), '
         'escaped for the slot and raw, inside six enclosing shapes; each is evaluated with grid.filter on a 3-row grid. '
         'Oracle: no canary is called or looked up; no exec/compile audit event carries code whose names include a payload '
         'identifier (identifiers seen with benign filters in a warm-up are allowed); no import/open/os.system/subprocess/'
@@ -202,7 +202,44 @@ def snapshot():
         'switchinterval': sys.getswitchinterval(),
         'pint-mode': getattr(sys.modules.get('hszinc.datatypes'), 'MODE_PINT', None),
         'canary_files': tuple(sorted(os.listdir(CANARY_DIR))),
+        'public-state': _public_state(),
     }
+
+
+def _freeze(v, depth=0):
+    if isinstance(v, (str, bytes, int, float, bool, type(None))):
+        return (type(v).__name__, v if v == v else 'nan')
+    if depth < 3 and isinstance(v, dict):
+        return ('dict', frozenset((_freeze(k, depth + 1), _freeze(x, depth + 1)) for k, x in list(v.items())))
+    if depth < 3 and isinstance(v, (list, tuple)):
+        return (type(v).__name__, tuple(_freeze(x, depth + 1) for x in v))
+    if depth < 3 and isinstance(v, (set, frozenset)):
+        return ('set', frozenset(_freeze(x, depth + 1) for x in v))
+    return ('object', type(v).__name__, id(v))
+
+
+def _public_state():
+    """what a program can see of the package's module-level state through public names: every public (non-underscore)
+    module-level data object of every hszinc module (content of dicts / lists / sets / scalars, identity otherwise) and the
+    time-zone tables handed out by zoneinfo's public accessors.  Private memo tables are not state visible to the program."""
+    import types
+    out = {}
+    for name, mod in sorted(sys.modules.items()):
+        if not (name == 'hszinc' or name.startswith('hszinc.')) or mod is None:
+            continue
+        for k, v in sorted(vars(mod).items()):
+            if k.startswith('_') or isinstance(v, (types.ModuleType, types.FunctionType, types.BuiltinFunctionType, type)) or callable(v):
+                continue
+            out[name + '.' + k] = _freeze(v)
+    zi = sys.modules.get('hszinc.zoneinfo')
+    for fn in ('get_tz_map', 'get_tz_rmap'):
+        f = getattr(zi, fn, None)
+        if callable(f):
+            try:
+                out['zoneinfo.%s()' % fn] = _freeze(f())
+            except Exception as e:  # noqa
+                out['zoneinfo.%s()' % fn] = ('raises', type(e).__name__)
+    return out
 
 
 def check(case):
@@ -277,6 +314,14 @@ def check(case):
         if snap[k] != after[k]:
             diff = (set(after[k]) ^ set(snap[k])) if isinstance(snap[k], (frozenset, tuple)) else (snap[k], after[k])
             raise Violation('global-state-changed', case, '%s changed: %r' % (k, list(diff)[:5] if isinstance(diff, set) else diff), tags)
+    for k in sorted(set(snap['public-state']) & set(after['public-state'])):
+        if snap['public-state'][k] != after['public-state'][k]:
+            x, y = snap['public-state'][k], after['public-state'][k]
+            if x[0] == y[0] == 'dict':
+                what = 'entries added/changed: %r' % sorted(repr(i) for i in (x[1] ^ y[1]))[:4]
+            else:
+                what = '%r -> %r' % (x, y)
+            raise Violation('global-state-changed', case, 'public module-level state %s changed: %s' % (k, what[:300]), tags)
     newmods = set(m for m in after['modules'] - snap['modules'] - STATE['allowed_modules']
                   if m.split('.')[0] not in STATE['allowed_tops'] or 'zzcanary' in m)
     if newmods:
@@ -309,7 +354,7 @@ def payloads():
                     '__class__', '__dict__', '__init__', 'use_pint("1")', 'use_pint', 'to_pint("m")', 'ureg', 'long("1")',
                     'Quantity("1")', 'Grid("3.0")', 'parse_filter("x")', 'filter_function("x")', 'lru_cache', 'itertools',
                     ' and '.join('t%d == %d' % (i, i) for i in range(60)), ' or '.join('not t%d' % i for i in range(120)),
-                    'Cuba', 'Zulu', 'Etc/GMT+5', 'Factory', 'posixrules', 'text/plain', 'image/png; x=1',
+                    'Cuba', 'Zulu', 'Etc/GMT+5', 'Factory', 'posixrules', 'Japan', 'NZ', 'Turkey', 'EST', 'Tokyo', 'UTC', 'GMT0', 'Navajo', 'text/plain', 'image/png; x=1',
                     '(' * 30 + 'x' + ')' * 30, '(' * 140 + 'x' + ')' * 140, '(' * 400 + 'x == 1' + ')' * 400, '"' + 'A' * 5000 + '"',
                     'print("zz")', 'len("abc")', 'repr', 'id', 'type', 'str', 'NOT_FOUND', '_get_path', 'Ref("a")', 'XStr("a","b")',
                     'MARKER', 'os', 'sys', 'datetime.date(2020,1,1)', 'timezone("UTC")', 'NA', 'float("nan")', 'True', 'None']
